@@ -93,3 +93,47 @@ Theorem C14_sibling_survives_drop :
 Proof. exact drop_index_keeps_others. Qed.
 Print Assumptions C14_sibling_survives_drop.
 
+
+(* ---- adequacy of the abstract specification S (Proofs/SpecAdequacyProofs.v): consequences of a_step alone, no store, model or refinement lemma ---- *)
+From Coq Require Import Permutation Sorted.
+From Clover Require Import HistoryProofs CompositeSpec CompositeProofs IndexIndepProofs AbstractSpecProofs SpecAdequacyProofs.
+Theorem C14_spec_indexes : forall c f a, a_closed a = false ->
+  (* CreateIndex: ok appends f to the index list (documents untouched); on an indexed field EIdxExist *)
+  (forall t1 a1 sc, a_step (OCreateIndex c f) a t1 a1 -> assoc c (a_db a) = Some sc ->
+     (has_field f (sc_idx sc) = true -> t1 = T_err EIdxExist /\ a1 = a) /\
+     (has_field f (sc_idx sc) = false ->
+        t1 = T_ok (TL []) /\ assoc c (a_db a1) = Some (mkSC (sc_docs sc) (sc_idx sc ++ [f])))) /\
+  (* CreateIndex twice on an existing collection: the second answers EIdxExist; HasIndex in between: true *)
+  (forall t1 a1 t2 a2 t3 a3, assoc c (a_db a) <> None ->
+     a_step (OCreateIndex c f) a t1 a1 -> a_step (OHasIndex c f) a1 t2 a2 -> a_step (OCreateIndex c f) a2 t3 a3 ->
+     t2 = T_ok (Tbool true) /\ a2 = a1 /\ t3 = T_err EIdxExist /\ a3 = a1) /\
+  (* DropIndex of a field that is not indexed: EIdxNotExist, nothing changes *)
+  (forall t1 a1 sc, a_step (ODropIndex c f) a t1 a1 -> assoc c (a_db a) = Some sc ->
+     has_field f (sc_idx sc) = false -> t1 = T_err EIdxNotExist /\ a1 = a) /\
+  (* DropIndex of an indexed field: ok, f is gone, every other indexed field stays, documents untouched;
+     HasIndex afterwards: false *)
+  (forall t1 a1 t2 a2 sc, wf_db (a_db a) -> a_step (ODropIndex c f) a t1 a1 -> assoc c (a_db a) = Some sc ->
+     has_field f (sc_idx sc) = true -> a_step (OHasIndex c f) a1 t2 a2 ->
+     t1 = T_ok (TL []) /\ t2 = T_ok (Tbool false) /\
+     exists sc', assoc c (a_db a1) = Some sc' /\ sc_docs sc' = sc_docs sc /\ NoDup (sc_idx sc') /\
+       forall g, In g (sc_idx sc') <-> In g (sc_idx sc) /\ g <> f) /\
+  (* on a missing collection all four answer ECollNotExist *)
+  (forall t1 a1 t2 a2 t3 a3 t4 a4, assoc c (a_db a) = None ->
+     a_step (OCreateIndex c f) a t1 a1 -> a_step (ODropIndex c f) a t2 a2 ->
+     a_step (OHasIndex c f) a t3 a3 -> a_step (OListIndexes c) a t4 a4 ->
+     t1 = T_err ECollNotExist /\ t2 = T_err ECollNotExist /\ t3 = T_err ECollNotExist /\
+     t4 = T_err ECollNotExist /\ a1 = a /\ a2 = a /\ a3 = a /\ a4 = a).
+Proof. exact spec_indexes. Qed.
+Print Assumptions C14_spec_indexes.
+
+Theorem C14_spec_doc_write_keeps_indexes : forall o a t a', doc_write o = true -> a_step o a t a' ->
+  forall c0, option_map sc_idx (assoc c0 (a_db a')) = option_map sc_idx (assoc c0 (a_db a)).
+Proof. exact spec_doc_write_keeps_indexes. Qed.
+Print Assumptions C14_spec_doc_write_keeps_indexes.
+
+Theorem C14_spec_index_write_keeps_docs : forall o a t a', index_write o = true -> a_step o a t a' ->
+  (forall c0, option_map sc_docs (assoc c0 (a_db a')) = option_map sc_docs (assoc c0 (a_db a))) /\
+  map fst (a_db a') = map fst (a_db a) /\
+  (forall c, target o = Some c -> forall c', c' <> c -> assoc c' (a_db a') = assoc c' (a_db a)).
+Proof. exact spec_index_write_keeps_docs. Qed.
+Print Assumptions C14_spec_index_write_keeps_docs.
